@@ -65,6 +65,7 @@ fn main() {
         ["lib", ..] => librun::run(&a[1], &a[2], &a[3], a.get(4)),
         ["ctrlib", ..] => ctrrun::ctrlib(&a[1], &a[2], arg(&a, 3), arg(&a, 4), arg(&a, 5), a[6] == "1", a[7] == "1"),
         ["trace", "bits", ..] => facts::bits(&a[2], arg(&a, 3), arg(&a, 4)),
+        ["trace", "tinv", ..] => paths::tinv(arg(&a, 2), &a[3], arg(&a, 4)),
         ["replay", "counter", ..] => ctrrun::replay(&a[2], arg(&a, 3), arg(&a, 4), &a[5], arg(&a, 6), arg(&a, 7)),
         ["table", "revcomp", ..] => tables::revcomp(arg(&a, 2)),
         ["table", "posmap", ..] => tables::posmap(arg(&a, 2)),
